@@ -56,6 +56,7 @@ const (
 	CErrClass              = "error-class"                     // C13
 	CCallback              = "callback"                        // C20
 	CSpuriousCycle         = "spurious-cycle"                  // C05/C13
+	CZeroBehindBrokenDeco  = "zero-behind-broken-decorator"    // C01
 	CMissedCycleInvoke     = "missed-cycle-at-invoke"          // C05/C13: resolution traverses a constructor cycle, Invoke must report it
 )
 
@@ -824,6 +825,22 @@ func (v *VResult) checkLeaf(rt *RT, op int, ii *InvokeInfo, g *MFn, l MLeaf, obs
 		if obs.Tok == 0 {
 			if l.Opt && exp != nil && !m.LeafAvailable(g, l) {
 				v.Labels["optional-above-hole"] = true
+			}
+			if l.Opt && ii.Zones.OptDecoUnavail {
+				// C04 leaves this corner out; C01 does not: an optional
+				// argument whose constructor is available must be that
+				// constructor's value as replaced by the nearest decorator -
+				// when that decorator cannot run, the consumer must not run
+				// with a zero standing in
+				if d := m.NearestDeco(g.View, l.Key, selfFor(g, l.Key)); d != nil {
+					if okd, _ := m.Available(d); !okd {
+						if p := m.NearestProvider(g.View, l.Key); p != nil {
+							if okp, _ := m.Available(p); okp {
+								v.add(CZeroBehindBrokenDeco, op, "%v leaf %s (%v, optional) is zero: its constructor %v is available, its nearest decorator %v cannot run (unavailable dependencies), yet the consumer was called", g, l.Path, l.Key, p, d)
+							}
+						}
+					}
+				}
 			}
 			if l.Opt {
 				if m.LeafAvailable(g, l) && !(ii.Zones.OptDecoUnavail) {
